@@ -1,6 +1,13 @@
 #!/usr/bin/env python3
 """Prints the markdown table of seeded changes (DESIGN.md 7.7) from /verif/seeded/*/meta.json."""
-import json, glob, os
+import json, glob, os, re
+def final(m):
+    r = m.get("recheck") or {}
+    if r.get("check_exit") is None:
+        return "-"
+    mm = re.search(r"runs=(\d+).*violations=(\d+)", (r.get("summary") or [""])[0])
+    tail = " (%s of %s runs)" % (mm.group(2), mm.group(1)) if mm else ""
+    return ("caught" if r["check_exit"] == 1 else "silent" if r["check_exit"] == 0 else "exit %s" % r["check_exit"]) + tail
 rows = []
 for f in sorted(glob.glob("/verif/seeded/*/meta.json")):
     m = json.load(open(f))
@@ -9,8 +16,8 @@ for f in sorted(glob.glob("/verif/seeded/*/meta.json")):
         continue  # tools/benign_table.py
     classes = [l.strip().replace("class: ", "") for l in m.get("check_lines", []) if l.strip().startswith("class:")]
     ok = m.get("suite_passes_with_change") and m.get("demo_fails_with_change") and m.get("demo_passes_without_change")
-    rows.append((sid, m["property"], (m.get("breaks") or "")[:150].replace("|", "/"), "yes" if ok else "NO", "**caught**" if m.get("detected_by_check") else "missed", "; ".join(classes)[:110].replace("|", "/"), m.get("note", "")))
-print("| id | change (one line) | confirmed | check | violation class(es) / note |")
-print("|---|---|---|---|---|")
+    rows.append((sid, m["property"], (m.get("breaks") or "")[:150].replace("|", "/"), "yes" if ok else "NO", "**caught**" if m.get("detected_by_check") else "missed", "; ".join(classes)[:110].replace("|", "/"), m.get("note", ""), final(m)))
+print("| id | change (one line) | confirmed | check | violation class(es) / note | final machinery, quick tier |")
+print("|---|---|---|---|---|---|")
 for r in rows:
-    print("| %s | %s | %s | %s | %s %s |" % (r[0], r[2], r[3], r[4], r[5], r[6]))
+    print("| %s | %s | %s | %s | %s %s | %s |" % (r[0], r[2], r[3], r[4], r[5], r[6], r[7]))
